@@ -827,16 +827,152 @@ def dom_queue(tier, seed):
     return items
 
 
+# --------------------------------------------------------------------------- sender histories
+# E-BFS over what an application does to ONE transmitting FakeBLE object between advertisements:
+# every sequence of attribute changes (only the named attribute is touched) and advertisements; after
+# every advertisement the receiver's element must carry the sender's CURRENT mac / name / PA level /
+# service data (a reference of "what the sender was last told", kept here).
+HNAMES = (None, b"A", b"nRF")
+HOPS_ALPHA = tuple([("pa", v) for v in PA_LEVELS] + [("show", True), ("show", False)] + [("name", i) for i in range(len(HNAMES))]
+                   + [("mac", 0), ("mac", 1)] + [("batt", 7), ("batt", 200), ("temp", -1250), ("temp", 4211), ("url", 0), ("url", 1)]
+                   + [("adv", "batt"), ("adv", "temp"), ("adv", "url"), ("adv", "none"), ("with",)])
+HURLS = ((0, ["a", 0], -20), (3, ["bc", 8], 4))  # (scheme code, parts, TX power): http://www.a.com/ , https://bc.org
+
+
+def hist_run(seed, hops, ops):
+    """-> (fails, outcome); the service data objects live as long as the sender (re-used between advertisements)"""
+    b = Bench(seed, hops, need_lib_tx=True)
+    w = b.w
+    tx = b.tx
+    fails = []
+    feats = {"ch": b.ch}
+    cur = {"mac": H.pattern(6, seed, 60), "name": None, "show": False, "pa": 0, "batt": 50, "temp": 2000, "url": 0}
+    tx.mac = cur["mac"]
+    objs = {"batt": H.m_ble.BatteryServiceData(), "temp": H.m_ble.TemperatureServiceData(), "url": H.m_ble.UrlServiceData()}
+    objs["batt"].data = cur["batt"]
+    objs["temp"].data = cur["temp"] / 100.0
+    objs["url"].pa_level_at_1_meter = HURLS[0][2]
+    objs["url"].data = ble.url_text(HURLS[0][0], HURLS[0][1])
+    nadv = 0
+    for i, op in enumerate(ops):
+        w.activate()
+        try:
+            if op[0] == "pa":
+                tx.pa_level = op[1]
+                cur["pa"] = op[1]
+            elif op[0] == "show":
+                tx.show_pa_level = op[1]
+                cur["show"] = op[1]
+            elif op[0] == "name":
+                tx.name = HNAMES[op[1]]
+                cur["name"] = HNAMES[op[1]]
+            elif op[0] == "mac":
+                cur["mac"] = H.pattern(6, seed, 61 + op[1])
+                tx.mac = cur["mac"]
+            elif op[0] == "batt":
+                objs["batt"].data = op[1]
+                cur["batt"] = op[1]
+            elif op[0] == "temp":
+                objs["temp"].data = op[1] / 100.0
+                cur["temp"] = op[1]
+            elif op[0] == "url":
+                objs["url"].pa_level_at_1_meter = HURLS[op[1]][2]
+                objs["url"].data = ble.url_text(HURLS[op[1]][0], HURLS[op[1]][1])
+                cur["url"] = op[1]
+            elif op[0] == "with":
+                tx.__exit__(None, None, None)
+                tx.__enter__()
+                cur["name"], cur["show"] = None, False  # documented: leaving the block resets name and show_pa_level
+            else:
+                kind = op[1]
+                if kind == "batt":
+                    chunks, spec = [H.m_ble.chunk(objs["batt"].buffer)], [("battery", cur["batt"])]
+                elif kind == "temp":
+                    chunks, spec = [H.m_ble.chunk(objs["temp"].buffer)], [("temperature", cur["temp"])]
+                elif kind == "url":
+                    u = HURLS[cur["url"]]
+                    chunks, spec = [H.m_ble.chunk(objs["url"].buffer)], [("url", u[0], u[1], u[2])]
+                else:
+                    chunks, spec = None, []
+                n = len(b.rr.rx_fifo)
+                if chunks is None:
+                    tx.advertise()
+                else:
+                    tx.advertise(chunks)
+                nadv += 1
+                w.advance(600 * US)
+                del w.airlog[:]
+                if len(b.rr.rx_fifo) != n + 1:
+                    fails.append(("tx-history-nothing-sent", "advertise() after %r put nothing on the air that the receiver's radio captured" % (ops[:i + 1],), feats))
+                    break
+                payload = b.rr.rx_fifo[-1][1]
+                pdu, ok = ble.decode(payload, b.ch)
+                exc, av, els = b.poll()
+                if exc:
+                    fails.append(("exception:%s:tx-history" % exc, "%s while receiving after %r" % (exc, ops[:i + 1]), feats))
+                    break
+                if not ok:
+                    fails.append(("tx-malformed", "after %r the transmitting FakeBLE produced an invalid packet %s" % (ops[:i + 1], bytes(payload).hex()), feats))
+                    break
+                if len(els) != 1:
+                    fails.append(("drops-valid" if not els else "queue-count", "valid advertisement produced %d elements after %r" % (len(els), ops[:i + 1]), feats))
+                    break
+                opt = b""
+                if cur["show"]:
+                    opt += ble.ad(ble.AD_TX_POWER, bytes([cur["pa"] & 0xFF]))
+                if cur["name"] is not None:
+                    opt += ble.ad(ble.AD_SHORT_NAME, cur["name"])
+                adv = FLAGS + opt + b"".join(ref_items(spec, seed))
+                bad = check_element(els[0], bytes([0x42, 6 + len(adv)]) + cur["mac"] + adv, True)
+                if bad:
+                    for clause, what in bad:
+                        fails.append(("tx-history-" + clause, "after %r: %s" % (ops[:i + 1], what), feats))
+                    break
+        except (HarnessError, Abort):
+            raise
+        except Exception as e:  # noqa
+            fails.append(("exception:%s:tx-history-%s" % (excname(e), op[0]), "%r raised %r after %r" % (op, e, ops[:i]), feats))
+            break
+    return fails, "txhist:%d-adv:%s" % (nadv, "ok" if not fails else "bad")
+
+
+def w_hist(item, rep):
+    _, item_key, prefixes, depth, seed = item
+    for pre in prefixes:
+        for rest in itertools.product(HOPS_ALPHA, repeat=depth - len(pre)):
+            ops = [list(o) for o in pre + rest]
+            if ops[-1][0] != "adv":  # every sequence ends by advertising what the last changes left behind
+                ops.append(["adv", ("batt", "temp", "url", "none")[sum(len(o) for o in ops) % 4]])
+            ops = [tuple(o) for o in ops]
+            hops = len(ops) % 3
+            fails, outcome = hist_run(seed, hops, ops)
+            rep.case()
+            rep.transitions += len(ops)
+            rep.traces += 1
+            rep.outcome(outcome)
+            rep.part("txhist", executions=1)
+            rep.nt("h" + repr(ops))
+            for clause, what, feats in fails:
+                K.stash(rep, item_key, clause, feats, what, {"part": "txhist", "ops": [list(o) for o in ops], "hops": hops, "seed": seed}, size=len(ops))
+
+
+def dom_txhist(tier, seed):
+    depth = 3 if tier == "quick" else 4
+    return [("txhist", "txh%03d" % i, [(p,)], depth, seed) for i, p in enumerate(HOPS_ALPHA)]
+
+
 # --------------------------------------------------------------------------- run / replay
 def work(item, rep):
     if item[0] == "queue":
         return w_queue(item, rep)
+    if item[0] == "txhist":
+        return w_hist(item, rep)
     part, item_key, cases, seed = item
     run_cases(part, item_key, cases, seed, rep)
 
 
 DOMAINS = (("battery", dom_battery), ("temperature", dom_temperature), ("url", dom_url), ("fields", dom_fields),
-           ("corrupt", dom_corrupt), ("adversarial", dom_adversarial), ("random", dom_random), ("queue", dom_queue))
+           ("corrupt", dom_corrupt), ("adversarial", dom_adversarial), ("random", dom_random), ("queue", dom_queue), ("txhist", dom_txhist))
 
 
 def run(tier, seed, rep, only=None):
@@ -847,10 +983,13 @@ def run(tier, seed, rep, only=None):
         if only and name not in only:
             continue
         its = dom(tier, seed)
-        counts[name] = sum(len(i[2]) for i in its) if name != "queue" else len(its) * len(QOPS) ** (its[0][3] - 2)
+        if name == "txhist":
+            counts[name] = len(HOPS_ALPHA) ** its[0][3]
+        else:
+            counts[name] = sum(len(i[2]) for i in its) if name != "queue" else len(its) * len(QOPS) ** (its[0][3] - 2)
         items += its
     # longest work first
-    items.sort(key=lambda it: -(len(it[2]) if it[0] != "queue" else 4 ** (it[3] - 2) * 4))
+    items.sort(key=lambda it: -(len(HOPS_ALPHA) ** (it[3] - 1) * 6 if it[0] == "txhist" else len(it[2]) if it[0] != "queue" else 4 ** (it[3] - 2) * 4))
     pmap(work, items, rep)
     K.collapse(rep, PID)
     ordered = sorted(rep.outcomes.items())  # merge order of the workers must not show in the evidence
@@ -893,6 +1032,8 @@ def replay(data):
     seed = r["seed"]
     if r["part"] == "queue":
         fails, outcome = queue_run(seed, r["hops"], r["ops"])
+    elif r["part"] == "txhist":
+        fails, outcome = hist_run(seed, r["hops"], [tuple(o) for o in r["ops"]])
     else:
         case = r["case"]
         if case["kind"] == "adv":
